@@ -182,12 +182,12 @@ Fixpoint rollback_scripts (st : store) (to : N) (l : list script_status) : res (
   match l with
   | [] => Ok []
   | ss :: tl =>
-      if to <=? ss_number ss then
-        let* a := map_res_ops (rollback_entry_ops st (ss_type ss) (ss_script ss))
-                              (script_history_desc st (ss_type ss) (ss_script ss) to) in
-        let* b := rollback_scripts st to tl in
-        Ok (a ++ [W_set_script (ss_script ss) (ss_type ss) to] ++ b)
-      else rollback_scripts st to tl
+      (* every script's history is scanned (repair: entries above the recorded number exist after a crash between
+         filter_block and update_block_number); only the recorded number of a script at or above [to] is reset *)
+      let* a := map_res_ops (rollback_entry_ops st (ss_type ss) (ss_script ss))
+                            (script_history_desc st (ss_type ss) (ss_script ss) to) in
+      let* b := rollback_scripts st to tl in
+      Ok (a ++ (if to <=? ss_number ss then [W_set_script (ss_script ss) (ss_type ss) to] else []) ++ b)
   end.
 
 Definition rollback_to_block (st : store) (to : N) : res store :=
